@@ -92,7 +92,7 @@ Proof.
   - destruct (zlen p - 1 - last_sep p <=? 0) eqn:L0; [apply safe_err; exact Hok|].
     destruct (zlen p - 1 - last_sep p >=? size) eqn:L1; [apply safe_err; exact Hok|]. breflect.
     apply safe_nul; [|lia]. apply wr_list_ok; [exact Hok|lia|].
-    unfold zlen. rewrite firstn_length. lia.
+    unfold zlen in *. rewrite firstn_length. lia.
 Qed.
 
 (* ---------- dirname ---------- *)
@@ -110,7 +110,7 @@ Proof.
       destruct ((_ - 1 >? 0) && _); lia. }
   destruct (pos2 >=? size) eqn:G; [apply safe_err; exact Hok|]. breflect.
   apply safe_nul; [|lia]. apply wr_list_ok; [exact Hok|lia|].
-  unfold zlen. rewrite firstn_length. lia.
+  unfold zlen in *. rewrite firstn_length. lia.
 Qed.
 
 (* ---------- join ---------- *)
@@ -176,7 +176,7 @@ Proof.
   destruct (negb (is_sep (get (pos - 1) m))); [discriminate|].
   destruct (pos - 2 <? 0) eqn:P2; [discriminate|]. breflect.
   rewrite (rdchk_ok m size (pos - 2) Hok) in H by lia.
-  inversion H; subst. split; [exact Hok|].
+  injection H as Hpos' Hm'. subst pos' m'. split; [exact Hok|].
   pose proof (last_sep_bounds (firstn (Z.to_nat (pos - 2 + 1)) (cells m))) as LB.
   unfold zlen in LB. rewrite firstn_length in LB.
   destruct (c2 =? 0); lia.
@@ -211,9 +211,9 @@ Lemma normpath_safe p size m : ok m size -> safe (normpath p size m) size.
 Proof.
   intro Hok. unfold normpath.
   destruct (zlen p >=? size) eqn:G; [apply safe_err; exact Hok|]. breflect.
-  set (cur := if _ then skipn 2 p else p).
+  set (cur := if negb (isabs p) && (startswith p [46; 47] || startswith p [46; 92]) then skipn 2 p else p).
   assert (zlen cur <= zlen p).
-  { subst cur. destruct (_ && _); [|lia]. unfold zlen. rewrite skipn_length. lia. }
+  { subst cur. destruct (negb (isabs p) && (startswith p [46; 47] || startswith p [46; 92])); [|lia]. unfold zlen in *. rewrite skipn_length. lia. }
   apply (np_loop_safe size (length cur)); [lia|exact Hok|lia|lia].
 Qed.
 
@@ -294,8 +294,8 @@ Qed.
 (* non-vacuity: the cases the unchanged code got wrong, on the guard pattern 0xAA *)
 Example path_witnesses :
   let g n := mkbuf (repeat 170 n) false in
-  fst (normpath [46; 46] 3 (g 3)) = 0 /\ cstr (cells (snd (normpath [46; 46] 3 (g 3)))) = [46; 46] /\
-  fst (basename [97; 98; 99] 4 (g 4)) = 0 /\ has_nul (cells (snd (basename [97; 98; 99] 4 (g 4)))) = true /\
-  fst (join [97] [98] 0 (g 0)) = EINVAL /\ fst (join [97] [98] 4 (g 4)) = 0 /\
-  cstr (cells (snd (join [97] [98] 4 (g 4)))) = [97; 47; 98].
+  fst (normpath [46; 46] 3 (g 3%nat)) = 0 /\ cstr (cells (snd (normpath [46; 46] 3 (g 3%nat)))) = [46; 46] /\
+  fst (basename [97; 98; 99] 4 (g 4%nat)) = 0 /\ has_nul (cells (snd (basename [97; 98; 99] 4 (g 4%nat)))) = true /\
+  fst (join [97] [98] 0 (g 0%nat)) = EINVAL /\ fst (join [97] [98] 4 (g 4%nat)) = 0 /\
+  cstr (cells (snd (join [97] [98] 4 (g 4%nat)))) = [97; 47; 98].
 Proof. vm_compute. repeat split; reflexivity. Qed.
